@@ -20,7 +20,7 @@ from .c01 import tree_snapshot
 OPTIONAL_ATTRS = {"Allow delete", "Allow move", "Allow rename", "Public", "Visible", "Partially hidden", "Last focus", "Description",
                   "Hidden", "Mapping", "Number of bins", "Transparent no data", "Units", "Contributors", "Distance unit", "GA Version",
                   "Version", "Modifiable", "Clipping IDs", "Allow delete contents", "Allow move contents", "Metadata", "Duplicate type on copy",
-                  "Current line property ID", "Properties", "Property Group Type", "Association:pg"}
+                  "Current line property ID", "Properties", "Property Group Type", "Association:pg", "File name"}
 MANDATORY_ATTRS = {"ID", "Name"}
 
 
@@ -63,6 +63,8 @@ def list_items(h5file):
                 for sub in node.keys():
                     if sub in ("Color map", "Value map"):
                         items.append(("link", path, sub, "type:" + key.strip("{}")))
+                        for a in node[sub].attrs.keys():        # optional attributes of the map dataset itself
+                            items.append(("attr", f"{path}/{sub}", a, "type:" + key.strip("{}")))
     return items
 
 
@@ -136,6 +138,8 @@ class SingleFault(Scenario):
                                     "uid": U[3]}})
             o.find_or_create_property_group(name="PG", properties=[d1.uid], uid=U[6])
             o.find_or_create_property_group(name="PG2", properties=[r1.uid], uid=U[7])
+            from .c03 import _mk_colormap
+            d1.entity_type.color_map = _mk_colormap()
             o.metadata = {"k": 1}
             p = Points.create(ws, vertices=real_np.arange(6.0).reshape(2, 3), name="P", uid=U[4])
             s1 = p.add_data({"S1": {"values": real_np.arange(2.0), "uid": U[5]}})
@@ -198,6 +202,8 @@ class SingleFault(Scenario):
                 described = set(type_users.get(owner[5:], set()))
             elif owner and owner.startswith("pg:"):
                 described = set()           # only that one property group of the object is described (handled below)
+            elif kind == "link" and name in ("Data", "Groups", "Objects"):
+                described = set()           # an EMPTY child container describes no entity at all
             elif owner:
                 described = {owner}
             grew = True
